@@ -55,6 +55,12 @@ class MarkerEnum(enum.Enum):
 FIXED_VALUES += list(AdvEnum)
 
 
+def case_twin(a):
+    """another name that differs from `a` only in letter case (or, for a caseless name, by one added letter)"""
+    b = a.swapcase()
+    return b if b != a else a + "A"
+
+
 def negative(a):
     """is the number written with a minus sign"""
     return str(a).startswith("-")
@@ -88,6 +94,11 @@ class Mapping:
     def name(self, key, mode):
         if not self.names:
             return key
+        if key.endswith("~"):
+            # the case-swapped twin of another name: a DIFFERENT identifier that only letter case tells apart
+            base = self.name(key[:-1], mode)
+            self.case_twins = getattr(self, "case_twins", set()) | {key[:-1]}
+            return base + "c" if mode == "B" else case_twin(base)
         i = self._i("n", key)
         if mode == "B":
             return "zqn%dx" % i
@@ -128,6 +139,8 @@ class Mapping:
                 ents.append("(%s, MName %s)" % (cstr(m), cstr(a)))
                 for suf in ("2", "_"):   # the library's derived names: self-join tag, UPDATE..FROM tag
                     ents.append("(%s, MName %s)" % (cstr(m + suf), cstr(a + suf)))
+                if key in getattr(self, "case_twins", ()):
+                    ents.append("(%s, MName %s)" % (cstr(m + "c"), cstr(case_twin(a))))
             elif kind == "s":
                 a = self._pick(ADV_STRS, i, self.salt, lambda x, r: x + "#" + str(r))
                 ents.append("(%s, MVal %s)" % (cstr("zqv%d" % i), dump_value(a)))
